@@ -82,7 +82,7 @@ Definition eff_delrows (s : api) (p' : prob) (ds : list nat) : api :=
                   | Some b => forallb (fun i => negb (stat_in (ba_r b) i "0" || stat_in (ba_r b) i "2")) ds
                   | None => false end in
   let cache_ok := match a_cache s with
-                  | Some c => (basis_ok && forallb (fun i => Qle_bool (nth i (ca_pi c) 0) 0) ds)%bool
+                  | Some c => (basis_ok && forallb (fun i => Qeq_bool (nth i (ca_pi c) 0) 0) ds)%bool
                   | None => false end in
   let b' := if basis_ok then match a_basis s with Some b => Some {| ba_c := ba_c b; ba_r := restrict (ba_r b) ds |} | None => None end else None in
   let s1 := {| a_p := p'; a_basis := b'; a_cache := a_cache s; a_qstatus := a_qstatus s; a_factorok := false |} in
@@ -100,6 +100,16 @@ Definition eff_delcols (s : api) (p' : prob) (ds : list nat) : api :=
                   | None => false end in
   let b' := if basis_ok then match a_basis s with Some b => Some {| ba_c := restrict (ba_c b) ds; ba_r := ba_r b |} | None => None end else None in
   free_cache {| a_p := p'; a_basis := b'; a_cache := a_cache s; a_qstatus := a_qstatus s; a_factorok := false |}.
+
+(* QSchange_senses: only the logical of a ranged row can be nonbasic at its upper bound - a row that stops being
+   ranged is moved from UPPER to LOWER in the stored basis (ILLbasis_load rejects UPPER for a non-ranged row) *)
+Definition norm_rstat (s : api) (l : list (Z * ascii)) : api :=
+  with_basis s (match a_basis s with
+                | Some b => Some {| ba_c := ba_c b;
+                                    ba_r := fold_left (fun r it => let i := Z.to_nat (fst it) in
+                                              if (negb (Ascii.eqb (snd it) "R") && stat_in r i "2")%bool
+                                              then upd_nth i (fun _ => "1"%char) r else r) l (ba_r b) |}
+                | None => None end).
 
 (* what the wrapper of a successful edit does besides changing the problem *)
 Definition apply_effect (s : api) (o : pop) (p' : prob) : api :=
@@ -122,7 +132,8 @@ Definition apply_effect (s : api) (o : pop) (p' : prob) : api :=
       end
   | DelSetCols _ | DelNCols _ =>
       match del_cols_of (a_p s) o with [] => with_p s p' | ds => eff_delcols s p' ds end
-  | ChgCoef _ _ _ | ChgSenses _ | ChgRange _ _ => free_cache (with_factor (with_p s p') false)
+  | ChgSenses l => free_cache (with_factor (norm_rstat (with_p s p') l) false)
+  | ChgCoef _ _ _ | ChgRange _ _ => free_cache (with_factor (with_p s p') false)
   | ChgObj _ _ | ChgRhs _ _ | ChgBnds _ => free_cache (with_p s p')
   | ChgObjSense _ => if Bool.eqb (p_max p') (p_max (a_p s)) then with_p s p' else free_cache (with_p s p')
   | _ => with_p s p'
